@@ -637,7 +637,7 @@ const watchdog = 120 * time.Second
 var scratchRoot = "/dev/shm/verif-c11"
 
 func main() {
-	r := ev.Start("C11", "exploration", 4*time.Minute, 36*time.Minute)
+	r := ev.Start("C11", "exploration", 6*time.Minute, 45*time.Minute)
 	scratchRoot = fmt.Sprintf("%s-%d", scratchRoot, os.Getpid())
 	debug.SetGCPercent(400) // allocation-heavy XML/JSON parsing; memory is not the constraint
 
@@ -807,6 +807,10 @@ func main() {
 			// Maven projects with a local parent pom sharing a property between two packages
 			runAll(stOverride, func(emit func(*u.Case)) { b.GenParentShape(emit) })
 			runAll(stUpdate, func(emit func(*u.Case)) { b.GenParentShape(emit) })
+			// every construction route / spelling of the same upgrade configuration
+			runAll(stUpdate, func(emit func(*u.Case)) { b.GenCfgRouteShape(u.Maven, "cfgroute-update", emit) })
+			runAll(stOverride, func(emit func(*u.Case)) { b.GenCfgRouteShape(u.Maven, "cfgroute-solo", emit) })
+			runAll(stRelax, func(emit func(*u.Case)) { b.GenCfgRouteShape(u.NPM, "cfgroute-solo", emit) })
 			// mixed-case / separator-rich registry names, upgrade config built through both construction routes
 			runAll(stUpdate, func(emit func(*u.Case)) { b.GenNameShape(u.Maven, "name-update", emit) })
 			for _, nsh := range []string{"name-solo", "name-chain"} {
@@ -829,7 +833,7 @@ func main() {
 	r.Assume("the in-memory deps.dev LocalClient and the npm/Maven resolvers of deps.dev/util/resolve are the resolution semantics (the same ones the repository's own tests use)")
 	r.Assume("vulnerability matching uses the repository's IsAffected (decided separately by C18)")
 	rule := "For every tuple (universe, manifest, vulnerability set, upgrade config) of the bounded product below, for npm/relax and Maven/override (all candidate patches of ComputePatches and the patches FixVulns applies) and Maven/Update: every PackageUpdate u of a patch P has level(u.Name) != none; with v0 = version u.Name resolves to in manifest+(P-u) and v1 = in manifest+P (real writer, reader and resolver), v1 > v0 in the reference order and the most significant differing component of v0->v1 is allowed by the level (major: any, minor: minor/patch, patch: patch); direct requirements of `none` packages are textually unchanged in the written manifest and every direct requirement that is not a reported update still resolves, from the files on disk, to the same version or moved upward within its level; no tuple panics or runs longer than 120 s. " +
-		"Bound (" + r.Tier + "): " + b.Describe() + "; shapes " + strings.Join(u.FixShapes, ", ") + " (FixVulns; sharedprop Maven only) plus alias-solo, alias-plain, alias-chain (GenAliasShape, npm: a direct dependency declared as \"<alias>\": \"npm:<real>@<req>\", alone / next to a plain requirement of the same package / constraining a vulnerable transitive package; levels keyed by the real name, alias-keyed entries as controls) overlap (GenOverlapShape: bumping d1 moves its transitive t1 from x to z while t1 can also be changed alone; vulnerabilities on d1 and on t1, one of them fixed only by the middle version y, so that independently computed patches overlap in what they fix) parent-req, parent-rev, parent-prop (GenParentShape, Maven: local parent pom parent.xml defining a property shared by the vulnerable d1 and another package d2, requirements split between parent and child) and name-solo, name-chain, name-update (GenNameShape: registry names from " + fmt.Sprint(u.NameAlphabet) + " instead of d1/t1, upgrade config built by Config.Set and by NewConfigFromStrings, keyed by the exact name) and prerelease (GenPreShape: solo over the ladder " + strings.Join(u.LadderPre, " ") + " with interleaved pre-releases) and equal-update, equal-override (Maven registry/manifest versions from the equal-ordered spellings " + strings.Join(u.EqualSpellings, " ") + "), origins-update and origin-direct, origin-transitive (one artifact declared in <dependencies> and in <dependencyManagement>, versions v,w over its published versions) and update-solo, update-pair, update-dup (Update; update-dup = one package required twice, jar a1 and tests/test-jar a2, a1,a2 over the ladder) as defined in verif/universe/gen.go, each the full product of its lists, enumerated simplest first."
+		"Bound (" + r.Tier + "): " + b.Describe() + "; shapes " + strings.Join(u.FixShapes, ", ") + " (FixVulns; sharedprop Maven only) plus alias-solo, alias-plain, alias-chain (GenAliasShape, npm: a direct dependency declared as \"<alias>\": \"npm:<real>@<req>\", alone / next to a plain requirement of the same package / constraining a vulnerable transitive package; levels keyed by the real name, alias-keyed entries as controls) overlap (GenOverlapShape: bumping d1 moves its transitive t1 from x to z while t1 can also be changed alone; vulnerabilities on d1 and on t1, one of them fixed only by the middle version y, so that independently computed patches overlap in what they fix) parent-req, parent-rev, parent-prop (GenParentShape, Maven: local parent pom parent.xml defining a property shared by the vulnerable d1 and another package d2, requirements split between parent and child) cfgroute-solo, cfgroute-update (GenCfgRouteShape: the same upgrade configuration built by Config.Set and by NewConfigFromStrings with the default spelled \"level\" or \":level\", per-package \"pkg:level\" / \"group:artifact:level\", default first or last) and name-solo, name-chain, name-update (GenNameShape: registry names from " + fmt.Sprint(u.NameAlphabet) + " instead of d1/t1, upgrade config built by Config.Set and by NewConfigFromStrings, keyed by the exact name) and prerelease (GenPreShape: solo over the ladder " + strings.Join(u.LadderPre, " ") + " with interleaved pre-releases) and equal-update, equal-override (Maven registry/manifest versions from the equal-ordered spellings " + strings.Join(u.EqualSpellings, " ") + "), origins-update and origin-direct, origin-transitive (one artifact declared in <dependencies> and in <dependencyManagement>, versions v,w over its published versions) and update-solo, update-pair, update-dup (Update; update-dup = one package required twice, jar a1 and tests/test-jar a2, a1,a2 over the ladder) as defined in verif/universe/gen.go, each the full product of its lists, enumerated simplest first."
 	os.RemoveAll(scratchRoot)
 	r.Finish(rule, exhaustive)
 }
